@@ -148,14 +148,20 @@ def far_match_block(rng, hist, nseq=None, off_lo=40000, off_hi=65535, maxc=60000
         if hi < 1:
             break
         off = rng.randrange(lo, hi + 1)
-        ml = min(rng.choice([4, 19, 200, 1000, 3000, 20000]), off)     # no overlap: plain slice copy
+        ml = rng.choice([4, 19, 200, 1000, 3000, 20000])
+        if off >= 4:
+            ml = max(4, min(ml, off))                     # no overlap: plain slice copy
         room = maxc - 64 - (len(out) - h) - len(lits)
         if room < 4:
             break
-        ml = min(ml, room)
+        ml = max(4, min(ml, room))
         out += lits
         start = len(out) - off
-        out += out[start:start + ml]
+        if ml <= off:
+            out += out[start:start + ml]
+        else:
+            for i in range(ml):
+                out.append(out[start + i])
         blk += declib.enc_seq(lits, off, ml)
     # end-of-block conditions: last 5 bytes literals, last match starts >= 12 bytes before the end
     last = rng.randbytes(rng.choice([12, 13, 20, 30]))
@@ -697,5 +703,83 @@ def run_skipleak(st, rng):
         if r1.get("corr") or r2.get("corr"):
             return evals, ("corr_fail", "model/code disagree: " + str(r1.get("corr") or r2.get("corr")), det)
         return evals, None
+    finally:
+        sess.free()
+
+
+# ------------------------------------------------------------------ getFrameInfo first, then LZ4F_decompress_usingDict
+def run_info_then_dict(st, rng):
+    """The normal way to learn a frame's dictID: LZ4F_getFrameInfo on the header, then LZ4F_decompress_usingDict
+    for the rest (the context is in dstage_init when the dictionary is handed over).  Fresh or reused context,
+    linked / independent blocks, dictionaries of several sizes; the first block references the dictionary.
+    Direct oracle: output == Spec.frame_decode with that dictionary.  Returns (evals, None | (status, what, detail))."""
+    orc = st["oracle"]
+    dsz = rng.choice([1, 7, 64, 1000, 5000, 65536, 70000, 100000])
+    dict_ = declib.gens.data(rng, rng.choice(["random", "text", "random"]), dsz)
+    indep = rng.random() < 0.5
+    bcrc = rng.random() < 0.4; ccrc = rng.random() < 0.5
+    dictid = rng.choice([None, rng.randrange(1, 1 << 32)])
+    content = bytearray(); body = bytearray()
+    nb = rng.choice([1, 2, 3])
+    for j in range(nb):
+        hist = bytes(dict_) if indep else (bytes(dict_) + bytes(content))[-65536:]
+        if j == 0 or indep:
+            # every match of this block starts in the dictionary
+            blk, c = far_match_block(rng, hist[-65535:], nseq=rng.choice([1, 3, 8]), off_lo=max(1, min(len(hist), 65535) // 2 + 1),
+                                     off_hi=65535, maxc=rng.choice([200, 3000, 30000]))
+        else:
+            blk, c, _ = declib.gen_valid_block(rng, hist, max_seqs=rng.choice([1, 4, 8]))
+        if not blk:
+            continue
+        body += block(blk, False, bcrc); content += c
+    csize = rng.choice([None, len(content)]) if len(content) else None
+    hdr = header(4, indep, bcrc, csize, ccrc, dictid)
+    fr = hdr + bytes(body) + struct.pack("<I", 0) + (struct.pack("<I", xxh32(bytes(content))) if ccrc else b"")
+    content = bytes(content)
+    det = {"frame": fr.hex() if len(fr) < 4000 else "len=%d" % len(fr), "dict_len": dsz, "indep": indep, "dictid": dictid}
+    sp = spec_frame(orc, fr, dict_, skip=False)
+    if sp is None or sp[0] != len(content) or sp[1] != md5(content) or sp[2] != 0:
+        return 0, ("harness_error", "generated dictionary frame is not what the specification decodes", det)
+    sess = Session(st)
+    try:
+        reused = rng.random() < 0.5
+        det["reused"] = reused
+        if reused:      # some history first: a frame (with another dictionary or none), maybe abandoned + reset
+            d0 = rng.choice([None, rng.randbytes(300)])
+            fr0, c0, m0 = gen_frame(rng, d0 or b"", nblocks=rng.choice([1, 2]))
+            cut = len(fr0) if rng.random() < 0.6 else rng.randrange(1, len(fr0))
+            r0 = drive(sess, rng, fr0[:cut], rng.choice(["whole", "rand"]), rng.choice(["large", "7"]), dict_=d0, hlen=m0["hlen"])
+            if r0["verdict"] in ("prop", "noprogress"):
+                return sess.calls, ("prop_fail", str(r0["what"]), det)
+            if r0["verdict"] != "complete":
+                sess.cd.reset()
+                if not sess.model_dead: sess.md.reset()
+        give = rng.choice([len(hdr), len(hdr), len(hdr) + 3, len(fr)])
+        ci = sess.cd.frame_info(fr[:give])
+        if not sess.model_dead:
+            mi = sess.md.frame_info(fr[:give])
+            if ci != mi[:3]:
+                sess.corr = "getFrameInfo: code %s model %s" % (ci, mi[:3]); sess.model_dead = True
+        if ci[1] < 0 or ci[0] != len(hdr):
+            return sess.calls + 1, ("prop_fail", "getFrameInfo on a valid header: consumed %d (header %d bytes), ret %d" % (ci[0], len(hdr), ci[1]), det)
+        want_id = "dictid=%d" % (dictid or 0)
+        if want_id not in (ci[2] or ""):
+            return sess.calls + 1, ("prop_fail", "getFrameInfo reports [%s], the header has %s" % (ci[2], want_id), det)
+        ch = rng.choice(["whole", "rand", "one", "hint"]); cap = rng.choice(["large", "7", "rand", "bs"])
+        if len(content) > 3000 and cap == "7": cap = "kb"
+        if len(fr) > 3000 and ch == "one": ch = "rand"
+        det.update({"chunking": ch, "cap": cap})
+        r = drive(sess, rng, fr[ci[0]:], ch, cap, dict_=dict_, hlen=0)
+        det.update({"verdict": r["verdict"], "code": r.get("code")})
+        if r["verdict"] in ("prop", "noprogress"):
+            return sess.calls + 1, ("prop_fail", str(r["what"]), det)
+        if r["verdict"] != "complete" or r["out"] != content or r["pos"] != len(fr) - ci[0]:
+            return sess.calls + 1, ("prop_fail", "header read by LZ4F_getFrameInfo, rest by LZ4F_decompress_usingDict (dictionary of %d bytes, %s blocks, %s context): "
+                                    "%s %s, %d of %d content bytes; the specification decodes this frame with this dictionary" % (
+                                        dsz, "independent" if indep else "linked", "reused" if reused else "fresh", r["verdict"],
+                                        ERR.get(r.get("code"), r.get("code")), len(r.get("out", b"")), len(content)), det)
+        if sess.corr:
+            return sess.calls + 1, ("corr_fail", "model/code disagree: " + str(sess.corr), det)
+        return sess.calls + 1, None
     finally:
         sess.free()
